@@ -30,7 +30,8 @@ ASSUMPTIONS = ['unbounded resource use (e.g. 1e9 segments) is out of scope: coun
                'exceptions are bucketed by (type, innermost function of the package)']
 LABEL_FLOORS = {'outcome-report': 0.2, 'outcome-diagnostic': 0.2, 'hostile': 0.4}
 
-HOSTILE_NUM = ['0', '-1', '1e-300', '1e300', 'nan', 'inf', '-inf', '', 'x', '-0', '1e-40', '3.5', '1e6']
+HOSTILE_NUM = ['0', '-1', '1e-300', '1e300', 'nan', 'inf', '-inf', '', 'x', '-0', '1e-40', '3.5', '1e6', '1e308', '-1e308', '1e150']
+HOSTILE_CPLX = ['0', '0j', 'nan', 'nanj', 'inf', 'inf+1j', '1e300', '1e308+1e308j', '-1', '1e-300j', 'x', '', '1+', '(1+1j)']
 HOSTILE_INT = ['0', '-1', '', 'x', '1.5', 'nan', '2', '77']
 HOSTILE_PULSE = HOSTILE_INT + ['99999']
 HOSTILE_COUNT = ['0', '-1', '', 'x', '1.5', 'nan', '2', '1']      # counts stay small: resource use is out of scope
@@ -192,7 +193,7 @@ def argv_strategy(draw, big=False):
             add('--excitation-pulse', [num(str(draw(st.integers(1, max(1, o[2])))), 'i'), num(str(o[1]), 'i')])
         if ns > 1 or draw(st.integers(0, 2)) > 0 or (contra and draw(st.integers(0, 5)) == 0):
             v = draw(st.sampled_from(['1', '1+1j', '-2.5j', '0.5-0.5j', '100', '1e-3j']))
-            add('--excitation-voltage', [[v, 'c']])
+            add('--excitation-voltage', [num(v, 'c')])
         if contra and draw(st.integers(0, 9)) == 0:
             add('--excitation-voltage', [['2', 'c']])       # count mismatch
     # loads
@@ -200,7 +201,7 @@ def argv_strategy(draw, big=False):
     for i in range(draw(st.sampled_from([0, 0, 1, 1, 2, 3]))):
         k = draw(st.sampled_from(['--load', '--rlc-load', '--trap-load', 'laplace']))
         if k == '--load':
-            add(k, [[draw(st.sampled_from(['50', '50+3j', '10-20j', '0', '1e6', '-5+1j'])), 'c']])
+            add(k, [num(draw(st.sampled_from(['50', '50+3j', '10-20j', '0', '1e6', '-5+1j'])), 'c')])
         elif k == '--rlc-load':
             flds = [num(draw(st.sampled_from([1.0, 100.0]))), num(1e-6), num(1e-9)]
             m_ = draw(st.sampled_from(['RLC', 'RL', 'R', 'LC', 'C', 'RC']))
@@ -267,7 +268,7 @@ def argv_strategy(draw, big=False):
         k = 1 if level == 'one' else draw(st.integers(2, 4))
         for _ in range(k):
             s = cand[draw(st.integers(0, len(cand) - 1))]
-            s[0] = draw(st.sampled_from(HOSTILE_INT if s[1] == 'i' else HOSTILE_PULSE if s[1] == 'p' else HOSTILE_COUNT if s[1] == 'n' else HOSTILE_NUM))
+            s[0] = draw(st.sampled_from(HOSTILE_INT if s[1] == 'i' else HOSTILE_CPLX if s[1] == 'c' else HOSTILE_PULSE if s[1] == 'p' else HOSTILE_COUNT if s[1] == 'n' else HOSTILE_NUM))
             hostile += 1
     arity = 0
     if level == 'several' and opts and draw(st.booleans()):
